@@ -204,9 +204,22 @@ Scale == LET S == { par[k] : k \in ConcArgs(fn) \cap DOMAIN par }
          IN  CHOOSE m \in S : \A x \in S : QLe(x, m)
 Class == fn \o (IF HasInitialProduct THEN ":p+" ELSE ":p0") \o ":" \o Regime \o ":" \o backend
           \o (IF dt = QZero THEN ":t0" ELSE "")
+(* CALL FORMS.  Different spellings of one call denote the same value: arguments by position or *)
+(* by keyword, defaulted arguments (t0 = 0, n = 1) left out, integral values as native ints,      *)
+(* an array of times instead of a scalar (numpy family; element-wise the scalar values, and the   *)
+(* array itself is not modified), all arguments symbolic and substituted afterwards (sympy).      *)
+Defaults(f) == IF f = "dimerization_irrev" THEN [t0 |-> <<0, 1>>]
+               ELSE IF f = "binary_irrev_cstr" THEN [n |-> <<1, 1>>] ELSE <<>>
+AtDefaults == \A k \in DOMAIN Defaults(fn) : par[k] = Defaults(fn)[k]
+CallForms == {"positional", "keyword", "native-ints"}
+             \cup (IF DOMAIN Defaults(fn) # {} /\ AtDefaults THEN {"implicit-defaults"} ELSE {})
+             \cup (IF backend \in {"default", "numpy:str", "numpy:mod", "plain"} THEN {"array-t"} ELSE {})
+             \cup (IF backend \in {"sympy:mod", "plain"} THEN {"symbolic-args"} ELSE {})
 CaseRec ==
     [ in  |-> [fn |-> fn, backend |-> backend, sig |-> Sig(fn), args |-> par,
-               t |-> QAdd(InitTime(fn, par), dt), tinit |-> InitTime(fn, par)],
+               t |-> QAdd(InitTime(fn, par), dt), tinit |-> InitTime(fn, par),
+               callforms |-> CallForms, defaulted |-> DOMAIN Defaults(fn),
+               tarray |-> <<QAdd(InitTime(fn, par), dt), InitTime(fn, par)>>],
       cls |-> Class,
       exp |-> [ ret |-> M.ret, regime |-> Regime, product0 |-> HasInitialProduct,
                 init |-> InitialValue(fn, par),
